@@ -2376,12 +2376,15 @@ func (interp *Interpreter) cfg(root *node, sc *scope, importPath, pkgName string
 				} else {
 					body := c.lastChild()
 					if len(c.child) > 1 {
-						cond := c.child[0]
-						cond.tnext = body.start
-						// A failed condition goes to the next condition in source order.
-						setFNext(cond, nextTest)
-						c.start = cond.start
-						nextTest = c.start
+						// A clause may list several conditions, tested in source order:
+						// a failed condition goes to the next one, in this clause or in a following one.
+						for j := len(c.child) - 2; j >= 0; j-- {
+							cond := c.child[j]
+							cond.tnext = body.start
+							setFNext(cond, nextTest)
+							nextTest = cond.start
+						}
+						c.start = nextTest
 					} else {
 						c.start = body.start
 					}
